@@ -141,7 +141,8 @@ static int STRUCTURE##_set_output_size(struct upipe *upipe,                 \
     struct STRUCTURE *STRUCTURE = STRUCTURE##_from_upipe(upipe);            \
     STRUCTURE->OUTPUT_SIZE = output_size;                                   \
     struct uref *flow_def;                                                  \
-    if (likely(STRUCTURE##_get_flow_def(upipe, &flow_def))) {               \
+    if (likely(ubase_check(STRUCTURE##_get_flow_def(upipe, &flow_def)) &&   \
+               flow_def != NULL)) {                                         \
         flow_def = uref_dup(flow_def);                                      \
         UBASE_ALLOC_RETURN(flow_def)                                        \
         UBASE_RETURN(uref_block_flow_set_size(flow_def, output_size))       \
